@@ -58,7 +58,7 @@ fn plain(spec: PacketSpec) -> BuildCase {
 // C02
 // ---------------------------------------------------------------------------------------------
 
-fn c02_oracle(c: &BuildCase, st: &mut Stats) -> Verdict {
+pub(crate) fn c02_oracle(c: &BuildCase, st: &mut Stats) -> Verdict {
     labels(c, st);
     let blocks = match &c.spec {
         PacketSpec::Sr(s) => &s.blocks,
@@ -133,7 +133,7 @@ pub fn c02(tier: Tier) -> Check {
 // C03
 // ---------------------------------------------------------------------------------------------
 
-fn c03_oracle(c: &BuildCase, st: &mut Stats) -> Verdict {
+pub(crate) fn c03_oracle(c: &BuildCase, st: &mut Stats) -> Verdict {
     labels(c, st);
     let s = match &c.spec {
         PacketSpec::Sdes(s) => s,
@@ -211,7 +211,7 @@ pub fn c03(tier: Tier) -> Check {
 // C04
 // ---------------------------------------------------------------------------------------------
 
-fn c04_oracle(c: &BuildCase, st: &mut Stats) -> Verdict {
+pub(crate) fn c04_oracle(c: &BuildCase, st: &mut Stats) -> Verdict {
     labels(c, st);
     match &c.spec {
         PacketSpec::Bye(s) => {
@@ -314,7 +314,7 @@ pub fn c04(tier: Tier) -> Check {
 // C05
 // ---------------------------------------------------------------------------------------------
 
-fn c05_oracle(c: &BuildCase, st: &mut Stats) -> Verdict {
+pub(crate) fn c05_oracle(c: &BuildCase, st: &mut Stats) -> Verdict {
     labels(c, st);
     let s = match &c.spec {
         PacketSpec::Fb(s) => s,
